@@ -114,7 +114,8 @@ def cmds_for(g, n, streams):
     prefix = "(" + ", ".join(map(str, range(n))) + ")"
     cmds, meta = [], []
     for name, (tmpl, kind) in FORMS.items():
-        cmds.append(drv.run_cmd(tmpl % e, p=prefix, lim=n + 2))
+        # one more than the largest expected result count (`E??` yields the out-list plus the start stack twice)
+        cmds.append(drv.run_cmd(tmpl % e, p=prefix, lim=max(n + 2, max(len(a) for a in g) + 3)))
         meta.append(("form", name, kind))
     for st in streams:
         for name in ("E*", "E+", "(E*)*"):
